@@ -62,6 +62,7 @@ type RunOpts struct {
 	Opts
 	Rounds         int
 	GoPolicy       string
+	Prop           string // property id: assertions tagged for another property ("Cnn.") are not this check's
 	Solver         string // primary backend
 	Alt            string // secondary backend (cross-check / fallback)
 	TimeoutMs      int
